@@ -373,14 +373,8 @@ func (t *Tree) search(topic string, node *node, fn func([]interface{}) bool) {
 		}
 	}
 
-	// add all current values and continue
+	// continue with all children
 	if segment == t.wildcardOne {
-		if len(node.values) > 0 {
-			if !fn(node.values) {
-				return
-			}
-		}
-
 		for _, child := range node.children {
 			t.search(topicShorten(topic, t.separator), child, fn)
 		}
